@@ -1,10 +1,11 @@
 (* C16 -- a failed write does not poison the store or the archive.
    Statements only (closed by [exact]); the proofs are in proofs/Fault*.v.
-   Model: theories/Store.v (device with a fault script: one entry per underlying WriteAt/Write call,
-   None = success, Some k = only the first min(k,len) bytes are written and the call returns an
-   error) and theories/Fault.v (operations, acknowledged blocks, wf_final).
+   Model: theories/Store.v (device with a fault script: one entry per underlying WriteAt/Write call --
+   None = success, Some k = only the first min(k,len) bytes are written and the call returns an error
+   -- and per Truncate call of a rewind -- None = done, Some _ = the call fails or the writer has no
+   Truncate method) and theories/Fault.v (operations, sticky write error, acknowledged blocks, wf_final).
    kn: 0 blockstore.ReadWrite, 1 / 2 storage on a WriterAt (readable / write-only), 3 storage on a
-   plain io.Writer. *)
+   plain io.Writer.  [sticky kn s] = the store's sticky write error (writeErr) is set. *)
 From GoCar Require Import Bytes Varint Cid Header Frame V2Header Index Store Fault.
 From GoCarProofs Require Import StoreInv FaultWf FaultMain.
 
@@ -18,8 +19,9 @@ Proof. exact fault_reports_error. Qed.
 Print Assumptions C16_failed_write_reports_error.
 
 (* (b) After any history under any fault script: a Put that returns an error leaves the index
-   (what Has/Get consult) as it was, and the file byte for byte as it was -- or, on a plain
-   io.Writer that already emitted part of the section, it sets the sticky write error. *)
+   (what Has/Get consult) as it was, and the file byte for byte as it was -- or, when the part of the
+   section that got out cannot be taken back (plain io.Writer; Truncate missing or failing), it sets
+   the sticky write error. *)
 Theorem C16_failed_put_changes_nothing :
   forall (hdrdec : bytes -> option (list bytes * N)) kn o nilroots roots faults ops s0 sn tr c d s' out,
     base_fits o -> hdr_ok nilroots roots ->
@@ -27,23 +29,25 @@ Theorem C16_failed_put_changes_nothing :
     open_new (kind_of kn) o nilroots roots faults = Ok s0 ->
     frun hdrdec kn s0 ops = (sn, tr) ->
     fstep hdrdec kn sn (FPut c d) = (s', out) -> is_err out = true ->
-    ws_idx s' = ws_idx sn /\ (ws_file s' = ws_file sn \/ (kn = 3 /\ ws_finalized s' = true)).
+    ws_idx s' = ws_idx sn /\ (ws_file s' = ws_file sn \/ sticky kn s' = true).
 Proof. exact failed_put_changes_nothing. Qed.
 Print Assumptions C16_failed_put_changes_nothing.
 
-(* ... and that sticky error makes every later Put and Finalize of the storage front-end fail,
-   leaving file and index alone (Finalize also marks the store closed); the error stays. *)
+(* ... and that sticky error makes every later Put, PutMany, Finalize and FinalizeReadOnly fail, leaving
+   file and index alone; the error stays. *)
 Theorem C16_sticky_write_error_refuses :
   forall (hdrdec : bytes -> option (list bytes * N)) kn s op s' out,
-    kn <> 0 -> ws_finalized s = true -> (exists c d, op = FPut c d) \/ op = FFinalize ->
+    sticky kn s = true -> op_okb kn op = true ->
+    (exists c d, op = FPut c d) \/ (exists bs, op = FPutMany bs) \/ op = FFinalize \/ op = FFinalizeRO ->
     fstep hdrdec kn s op = (s', out) ->
-    is_err out = true /\ ws_file s' = ws_file s /\ ws_idx s' = ws_idx s /\ ws_finalized s' = true.
+    is_err out = true /\ ws_file s' = ws_file s /\ ws_idx s' = ws_idx s /\ sticky kn s' = true.
 Proof. exact sticky_error_refuses. Qed.
 Print Assumptions C16_sticky_write_error_refuses.
 
 (* (c) The property itself.  For every front-end, option set, root list, fault script and history
    [pre ++ [op]] of the front-end's operations whose last operation is a Finalize (or
-   FinalizeReadOnly) that returned success: the file is well-formed and holds exactly the blocks
+   FinalizeReadOnly) that returned success -- the script also decides which Truncate calls fail --:
+   the file is well-formed and holds exactly the blocks
    acknowledged to the caller -- [acked] replays the history from what the caller saw: a Put that
    returned success adds its block unless ShouldPut skips it, a failed Put adds nothing, a failed
    PutMany keeps the blocks before the failing one.
@@ -63,15 +67,15 @@ Proof. exact no_poison. Qed.
 Print Assumptions C16_no_poison.
 
 (* (d) CARv1 mode needs no Finalize: after ANY history under any fault script the file is a
-   complete, well-formed CARv1 of exactly the acknowledged blocks (unless the sticky write error of
-   a storage front-end is set, in which case every later write call has been refused). *)
+   complete, well-formed CARv1 of exactly the acknowledged blocks (unless the sticky write error is
+   set, in which case every later write has been refused). *)
 Theorem C16_carv1_complete_at_every_moment :
   forall (hdrdec : bytes -> option (list bytes * N)) kn o nilroots roots faults ops s0 sn tr,
     base_fits o -> hdr_ok nilroots roots ->
     forallb (op_okb kn) ops = true -> ops_small ops ->
     open_new (kind_of kn) o nilroots roots faults = Ok s0 ->
     frun hdrdec kn s0 ops = (sn, tr) ->
-    w_v1 o = true -> (kn <> 0 -> ws_finalized sn = false) ->
+    w_v1 o = true -> sticky kn sn = false ->
     wf_final (ws_file sn) = Some (roots, acked o nilroots roots ops (map obs_of tr)).
 Proof. exact v1_always_wellformed. Qed.
 Print Assumptions C16_carv1_complete_at_every_moment.
